@@ -29,3 +29,12 @@ pub proof fn axiom_reflexive_into<T>()
         <T as vstd::std_specs::convert::IntoSpec<T>>::obeys_into_spec(),
         forall|x: T| #[trigger] vstd::std_specs::convert::IntoSpec::<T>::into_spec(x) == x,
 { admit(); }
+
+pub assume_specification<T, P: FnOnce(&T) -> bool> [Option::<T>::filter] (o: Option<T>, p: P) -> (r: Option<T>)
+    requires
+        o is Some ==> p.requires((&o->Some_0,)),
+    ensures
+        o is None ==> r is None,
+        r is Some ==> r == o,
+        o is Some ==> (r is Some <==> p.ensures((&o->Some_0,), true)),
+;
